@@ -237,6 +237,13 @@ func (x *Exec) freshError(st *State) IfaceV {
 }
 
 func (P *Prog) lookupType(name string) types.Type {
+	if strings.HasPrefix(name, "[]") {
+		// slices of basic types ("[]float64")
+		if bt, ok := basicByName[name[2:]]; ok {
+			return types.NewSlice(bt)
+		}
+		return nil
+	}
 	name = expandKey(name)
 	ptr := false
 	if strings.HasPrefix(name, "*") {
